@@ -145,6 +145,26 @@ inductive DiffersAt : JV → JV → Path → Prop
   | member {m0 m1 : List (Bytes × JV)} {k : Bytes} {q : Path} :
       DiffersAt (member k m0) (member k m1) q → DiffersAt (.obj m0) (.obj m1) (.key k :: q)
 
+/-! ## domain -/
+
+/-- every integer leaf satisfies `P` -/
+inductive AllInts (P : Int → Prop) : JV → Prop
+  | null : AllInts P .null
+  | bool (b : Bool) : AllInts P (.bool b)
+  | int (i : Int) : P i → AllInts P (.int i)
+  | flt (t : Bytes) : AllInts P (.flt t)
+  | big (t : Bytes) : AllInts P (.big t)
+  | num (t : Bytes) : AllInts P (.num t)
+  | str (t : Bytes) : AllInts P (.str t)
+  | arr (xs : List JV) : (∀ x, x ∈ xs → AllInts P x) → AllInts P (.arr xs)
+  | obj (m : List (Bytes × JV)) : (∀ kv, kv ∈ m → AllInts P kv.2) → AllInts P (.obj m)
+
+/-- an integer that a 64-bit signed machine integer can hold -/
+def IsInt64 (i : Int) : Prop := -9223372036854775808 ≤ i ∧ i < 9223372036854775808
+
+/-- a tree whose integer leaves are machine integers (the values the property is about) -/
+abbrev Int64Tree (a : JV) : Prop := AllInts IsInt64 a
+
 /-! ## ignore paths -/
 
 /-- pattern fragment against path fragment -/
